@@ -20,6 +20,7 @@ EXPLANATION = (
     "(the loop state is a few bool/char locals compared only with char constants) and must be equivalent, by product exploration over all reachable states, "
     "to the reference spacer that adds a space after ',' and ':' only outside JSON string literals."
     " C16.M4: the name-encoding / template rule of C01.e re-judged on the mock_salts MIR: the deterministic mode must not change a claim's name."
+    " C16.M5: the verifier's unpacking clauses (C01.a / C01.c / C03.V6: every value placed in the verified claims is the full walker's result; a disclosure that matched a digest is never dropped) re-judged on the mock_salts MIR: the claims are recovered unchanged in this build too."
 )
 ASSUMPTIONS = [
     "the interoperability tool under generate/ cannot be built offline (serde_yaml missing) and is not analysed",
@@ -158,6 +159,16 @@ def run(ctx):
         def info(self, *a, **k):
             return None
     c01.clause_e(NameOnly(ctx), fx, config=C)
+    # ---- M5: "holder and verifier still recover the original claims": the verifier's unpacking clauses of C01.a / C01.c / C03.V6 (every
+    # disclosed or visible value placed in the output is the walker's result; a matched disclosure is never dropped), re-judged on the
+    # mock_salts MIR: the deterministic build must not lose or alter a claim on the way back
+    import unpackmodel
+    import c03
+    R = common.RelabelCtx(ctx, "C16.M5", config=C)
+    U = unpackmodel.Unpack(R, fx, "C16.M5")
+    if U.ok:
+        c03.v6(R, fx, U, "C16.M5")
+        c01.clause_c(R, fx, U)
 
 
 def is_rng_call(t):
